@@ -99,21 +99,26 @@ HasTokenKey(v) == CASE v.t = "arr" -> \E i \in 1..Len(v.items) : HasTokenKey(v.i
                     [] v.t = "obj" -> (v.entries # <<>> /\ v.entries[1].k = Token) \/ \E i \in 1..Len(v.entries) : HasTokenKey(v.entries[i].v)
                     [] OTHER -> FALSE
 
-\* kept EXCEPT for the numbers of the K1 class (only then is a deviation the known finding K1)
-RECURSIVE SerKeepsButK1(_, _)
-SerKeepsButK1(a, b) ==
-  IF a.t # b.t THEN FALSE
-  ELSE CASE a.t = "num" -> (K1Class(a.num) \/ SerNumOK(a.num, b.num))
-         [] a.t = "arr" -> Len(a.items) = Len(b.items) /\ \A i \in 1..Len(a.items) : SerKeepsButK1(a.items[i], b.items[i])
+\* Known findings are matched at the PLACE they concern, so that another deviation in the same value is still reported:
+\* the value must be kept except (k1) at numbers of the K1 class and (k4) at objects whose first key is the number token.
+IsTokenObj(a) == a.t = "obj" /\ a.entries # <<>> /\ a.entries[1].k = Token
+RECURSIVE SerKeepsBut(_, _, _, _)
+SerKeepsBut(a, b, k1, k4) ==
+  IF k4 /\ IsTokenObj(a) THEN TRUE
+  ELSE IF a.t # b.t THEN FALSE
+  ELSE CASE a.t = "num" -> ((k1 /\ K1Class(a.num)) \/ SerNumOK(a.num, b.num))
+         [] a.t = "arr" -> Len(a.items) = Len(b.items) /\ \A i \in 1..Len(a.items) : SerKeepsBut(a.items[i], b.items[i], k1, k4)
          [] a.t = "obj" -> Len(a.entries) = Len(b.entries) /\
-                           \A i \in 1..Len(a.entries) : a.entries[i].k = b.entries[i].k /\ SerKeepsButK1(a.entries[i].v, b.entries[i].v)
+                           \A i \in 1..Len(a.entries) : a.entries[i].k = b.entries[i].k /\ SerKeepsBut(a.entries[i].v, b.entries[i].v, k1, k4)
          [] OTHER -> a = b
 
 ValueSerWhy(e) ==
   IF "ok" \notin DOMAIN e.out THEN "panic"
   ELSE IF e.out.ok /\ SerKeeps(SerValue(e.v), e.out.v) THEN ""
-  ELSE IF (\E sp \in NumbersOf(e.v) : K1Class(sp)) /\ (~e.out.ok \/ SerKeepsButK1(SerValue(e.v), e.out.v)) THEN "k1"
-  ELSE IF HasTokenKey(e.v) THEN "k4"
+  \* the whole serialization failed: explained by a K1 number (json-number refuses it) or by a token object
+  ELSE IF ~e.out.ok THEN (IF \E sp \in NumbersOf(e.v) : K1Class(sp) THEN "k1" ELSE IF HasTokenKey(e.v) THEN "k4" ELSE "value_ser")
+  ELSE IF (\E sp \in NumbersOf(e.v) : K1Class(sp)) /\ SerKeepsBut(SerValue(e.v), e.out.v, TRUE, FALSE) THEN "k1"
+  ELSE IF HasTokenKey(e.v) /\ SerKeepsBut(SerValue(e.v), e.out.v, TRUE, TRUE) THEN "k4"
   ELSE "value_ser"
 
 \* same structure; every number denotes the same integer, or the same double (certs: nearest doubles of v's numbers)
@@ -138,15 +143,15 @@ CertsOK(certs) == \A i \in 1..Len(certs) :
 SigDigits(sp) == Len(StripTrailing(ParseDec(sp).digits))
 \* K2 concerns decimals that go through a floating-point text parser: a spelling that is a 64-bit integer never does
 K2Class(sp) == SigDigits(sp) > 19 /\ ~FitsI64OrU64(sp)
-\* the value is kept EXCEPT for numbers of the K2 class (only then is a deviation the known finding K2; one wrong number of
-\* another kind in the same value is still reported)
-RECURSIVE KeepsButK2(_, _, _)
-KeepsButK2(a, b, certs) ==
-  IF a.t # b.t THEN FALSE
-  ELSE CASE a.t = "num" -> (K2Class(a.num) \/ NumKeeps(a.num, b.num, certs))
-         [] a.t = "arr" -> Len(a.items) = Len(b.items) /\ \A i \in 1..Len(a.items) : KeepsButK2(a.items[i], b.items[i], certs)
+\* kept except (k2) at numbers of the K2 class and (k4) at objects whose first key is the number token
+RECURSIVE KeepsBut(_, _, _, _, _)
+KeepsBut(a, b, certs, k2, k4) ==
+  IF k4 /\ IsTokenObj(a) THEN TRUE
+  ELSE IF a.t # b.t THEN FALSE
+  ELSE CASE a.t = "num" -> ((k2 /\ K2Class(a.num)) \/ NumKeeps(a.num, b.num, certs))
+         [] a.t = "arr" -> Len(a.items) = Len(b.items) /\ \A i \in 1..Len(a.items) : KeepsBut(a.items[i], b.items[i], certs, k2, k4)
          [] a.t = "obj" -> Len(a.entries) = Len(b.entries) /\
-                           \A i \in 1..Len(a.entries) : a.entries[i].k = b.entries[i].k /\ KeepsButK2(a.entries[i].v, b.entries[i].v, certs)
+                           \A i \in 1..Len(a.entries) : a.entries[i].k = b.entries[i].k /\ KeepsBut(a.entries[i].v, b.entries[i].v, certs, k2, k4)
          [] OTHER -> a = b
 
 \* value_de: the certificates are the nearest doubles of v's numbers (checked).
@@ -156,10 +161,11 @@ KeepsButK2(a, b, certs) ==
 ValueDeWhy(e) ==
   IF e.ev = "value_de" /\ ~CertsOK(e.certs) THEN "certificate"
   ELSE IF "t" \in DOMAIN e.back /\ Keeps(e.expect, e.back, e.certs) THEN ""
-  \* known finding K4: the number-token protocol (a map whose first key is the token IS a number) works in both directions
-  ELSE IF HasTokenKey(e.v) THEN "k4"
-  ELSE IF "t" \notin DOMAIN e.back THEN "panic_or_error"
-  ELSE IF (\E sp \in NumbersOf(e.v) : K2Class(sp)) /\ KeepsButK2(e.expect, e.back, e.certs) THEN "k2"
+  \* the whole deserialization failed: explained by a token object (known finding K4: a map whose first key is the token IS a
+  \* number for the protocol, in both directions), else a violation
+  ELSE IF "t" \notin DOMAIN e.back THEN (IF HasTokenKey(e.v) THEN "k4" ELSE "panic_or_error")
+  ELSE IF (\E sp \in NumbersOf(e.v) : K2Class(sp)) /\ KeepsBut(e.expect, e.back, e.certs, TRUE, FALSE) THEN "k2"
+  ELSE IF HasTokenKey(e.v) /\ KeepsBut(e.expect, e.back, e.certs, TRUE, TRUE) THEN "k4"
   ELSE "value_de"
 
 \* --- C18
